@@ -62,6 +62,17 @@ CLAIMED = {
             'iteration loop unrolled to 3; termination not proved',
             'contract-based deductive verification: AST->z3 VCs of the real source, loop invariant, frame/poison analysis',
             'DESIGN 2 C17'),
+    'C07': ('proof',
+            'Representation invariant (next index = number of rows; every cache entry equals its row) and per-operation '
+            'contracts of add / __getitem__ / __len__ / iteration / _open / _load_trajectory / _open_nc_file / _create_nc_file, '
+            'proved by executing the real bodies over a ghost row sequence from an arbitrary well-formed state: symbolic '
+            'row count at open time, symbolic number of rows added in the session, arbitrary cache content, nondeterministic '
+            'evictions through the real TrajectoryCache.popitem. Every history of operations follows by induction.',
+            'netCDF4 variable indexing (negative = from the current end, IndexError outside), unlimited dimension and '
+            'persistence, cachetools.LRUCache eviction, and the value layer (_read_from_nc_var/_write_data, C03) by assumed '
+            'contracts; trajectories are opaque records; negative store indices not covered',
+            'contract-based deductive verification: AST->z3 VCs of the real source, representation invariant + '
+            'per-operation contracts', 'DESIGN 2 C07'),
 }
 REASONS_TODO = 'check not built yet (work in progress; see DESIGN.md section 2)'
 
